@@ -23,6 +23,8 @@ Not decided: map lists that contain the same type twice (sorted() is stable).
 """
 from __future__ import annotations
 
+OWN_MUTATION_ADEQUACY = True  # thorough tier: rule-specific in-place AST mutants (mutate / re-run core / undo), see thorough()
+
 import ast
 
 import networkx as nx
@@ -347,15 +349,49 @@ def run(ctx):
     ctx.explanation = __doc__
     core(ctx)
     ctx.floor("map_types", 21)
-    ctx.floor("parse_branches", 19)
-    ctx.floor("constructor_chains", 20)
+    ctx.floor("parse_branches", 18)       # 21 types - MAP_LIST (itself) - CALL_SITE_ITEM - METHOD_HANDLE_ITEM (not parsed)
+    ctx.floor("constructor_chains", 18)
+    ctx.floor("constructors_in_chains", 30)
     ctx.floor("dependency_edges", 40)
     ctx.floor("parse_calls", 1)
     ctx.floor("section_reads", 25)
     ctx.assume("TypeMapItem(x) raises ValueError for a type code outside the enumeration, so every MapItem carries one of the 21 members")
     ctx.assume("a map list names every type at most once (format requirement); duplicates are not decided (sorted() is stable)")
+    positive_control(ctx)
     if ctx.tier == "thorough":
         thorough(ctx)
+
+
+def _constant_rank(tm):
+    node = tm.func("TypeMapItem.determine_load_order").node
+    for n in ast.walk(node):
+        if isinstance(n, ast.Assign) and isinstance(n.targets[0], ast.Subscript) and not isinstance(n.value, ast.Constant):
+            old = n.value
+            n.value = ast.Constant(0)
+
+            def undo():
+                n.value = old
+            return undo
+    return None
+
+
+def positive_control(ctx):
+    """one seeded violation per run (in memory): with every rank equal the order rule must fire"""
+    tm = ctx.mod(DEX_TYPES)
+    undo = _constant_rank(tm)
+    ctx.require(undo is not None, "positive control: no rank assignment in determine_load_order to seed")
+    try:
+        s = Sink(ctx.repo)
+        try:
+            cmi = CMInfo(ctx.repo, Folder(ctx.repo))
+            check_order(s, tm, cmi, cmi.members)
+        except AnalysisError:
+            pass
+    finally:
+        undo()
+    fired = any(f[0].startswith("order/") for f in s.findings)
+    ctx.ob("positive-control", "seeded constant rank", fired, "order rule fires on the seeded violation")
+    ctx.require(fired, "positive control did not fire: the load-order rule no longer detects equal ranks")
 
 
 def core(ctx):
@@ -593,13 +629,30 @@ def is_load_order_call(call, cmi):
 
 def find_list_attr(init):
     """self.<attr> that MapItem objects are appended to"""
+    def is_ctor(e):
+        return isinstance(e, ast.Call) and isinstance(e.func, ast.Name) and e.func.id == "MapItem"
+
     for n in walk_no_nested(init.node):
         if isinstance(n, ast.Call) and isinstance(n.func, ast.Attribute) and n.func.attr == "append":
             tgt = n.func.value
             if isinstance(tgt, ast.Attribute) and isinstance(tgt.value, ast.Name) and tgt.value.id == "self" and n.args:
-                a = resolve_local(_F(init), n.args[0])
-                if isinstance(a, ast.Call) and isinstance(a.func, ast.Name) and a.func.id == "MapItem":
+                a = n.args[0]
+                if is_ctor(a):
                     return tgt.attr
+                if isinstance(a, ast.Name):
+                    # the nearest preceding assignment of that name in the same block
+                    st = n
+                    while st is not None and not isinstance(st, ast.stmt):
+                        st = parent(st)
+                    blk = parent(st)
+                    for fld in ("body", "orelse"):
+                        body = getattr(blk, fld, None)
+                        if isinstance(body, list) and st in body:
+                            for prev in reversed(body[: body.index(st)]):
+                                if isinstance(prev, ast.Assign) and any(isinstance(t, ast.Name) and t.id == a.id for t in prev.targets):
+                                    if is_ctor(prev.value):
+                                        return tgt.attr
+                                    break
     raise AnalysisError("MapList.__init__: the list MapItem objects are appended to was not found")
 
 
@@ -707,6 +760,7 @@ def check_seeks(ctx, repo, m, folder, cmi, members):
             if hit != 1:
                 raise AnalysisError("MapItem: the attribute holding TypeMapItem(<type field>) was not identified")
             mark = len(st.log)
+            st.pos = Sym("cursor", "left behind by the previously parsed item")
             it.call_function(parse, [], recv=o)
             return st.log[mark:], dict(asg)
 
@@ -725,7 +779,11 @@ def check_seeks(ctx, repo, m, folder, cmi, members):
                     consumed = True
                 elif ev[0] == "new":
                     cname, node = ev[1], ev[2]
-                    news_all.append(cname)
+                    pn, in_list = parent(node), False
+                    while pn is not None and not isinstance(pn, ast.stmt):
+                        in_list = in_list or isinstance(pn, (ast.ListComp, ast.List))
+                        pn = parent(pn)
+                    news_all.append((cname, in_list))
                     inst = "%s -> %s" % (name, cname)
                     if last_seek is None or consumed:
                         ctx.check("absolute-seek", inst, False, parse, "%s before %s" % ("no seek" if last_seek is None else "read after seek", cname),
@@ -794,9 +852,13 @@ def check_seeks(ctx, repo, m, folder, cmi, members):
 # ---- (4) dependency soundness ----------------------------------------------------------------------
 def check_dependencies(ctx, repo, m, tm, cmi, deps, ctors):
     cg = CallGraph(repo)
+    cg.cmi = cmi
+    for tname, cl in ctors.items():
+        cg.sections[tname] = [("list" if in_list else "inst", m.cls(cname)) for cname, in_list in cl]
     fdep = cmi.enum_cls.lookup("_get_dependencies")
     names = {int(v): k for k, v in cmi.members.items()}
     closures = {}
+    all_inits = set()
     g = nx.DiGraph()
     for t, ds in deps.items():
         g.add_node(names.get(int(t), str(t)))
@@ -805,7 +867,7 @@ def check_dependencies(ctx, repo, m, tm, cmi, deps, ctors):
     for tname, cl in sorted(ctors.items()):
         allowed = nx.descendants(g, tname) if tname in g else set()
         roots = []
-        for cname in cl:
+        for cname, in_list in cl:
             c = m.cls(cname)
             init = c.lookup("__init__")
             if init is not None:
@@ -813,6 +875,7 @@ def check_dependencies(ctx, repo, m, tm, cmi, deps, ctors):
                 ctx.count("constructor_chains")
         clo = cg.closure(roots)
         closures[tname] = clo
+        all_inits.update(q for q, (f, pr, par) in clo.items() if f.name == "__init__")
         reads = {}
         for q, (f, precise, par) in clo.items():
             if f.cls is cmi.cls:
@@ -841,6 +904,7 @@ def check_dependencies(ctx, repo, m, tm, cmi, deps, ctors):
                       "parsing %s reads section %s (%s) but %s is not in the transitive closure of _get_dependencies()[%s] = %s: "
                       "with a map list in another order the section may not be loaded yet" % (tname, sec, path, sec, tname, sorted(allowed)),
                       detail="%s <= closure(%s); via %s" % (sec, tname, path))
+    ctx.count("constructors_in_chains", len(all_inits))
     return closures
 
 
@@ -878,16 +942,17 @@ def check_list_order(ctx, repo, m, cmi, lst_attr, closures):
                 if isinstance(p, ast.For) and lp is None:
                     lp = p
                 p = parent(p)
-            if lp is None or not isinstance(lp.target, ast.Name):
+            if lp is None:
                 raise AnalysisError("MapList.get_item_type: return outside a loop over the map items (shape outside the fragment)")
-            var = lp.target.id
+            lvars = {x.id for x in ast.walk(lp.target) if isinstance(x, ast.Name)}
+            var = sorted(lvars)[0] if lvars else "?"
             by_type = False
             if guard is not None and isinstance(guard.test, ast.Compare) and len(guard.test.ops) == 1 and isinstance(guard.test.ops[0], ast.Eq):
                 sides = [guard.test.left, guard.test.comparators[0]]
                 has_param = any(isinstance(s, ast.Name) and s.id in params[1:] for s in sides)
                 has_type = any(isinstance(s, ast.Call) and isinstance(s.func, ast.Attribute) and isinstance(s.func.value, ast.Name)
-                               and s.func.value.id == var and s.func.attr == "get_type" for s in sides) or \
-                    any(isinstance(s, ast.Attribute) and isinstance(s.value, ast.Name) and s.value.id == var and s.attr == "type" for s in sides)
+                               and s.func.value.id in lvars and s.func.attr == "get_type" for s in sides) or \
+                    any(isinstance(s, ast.Attribute) and isinstance(s.value, ast.Name) and s.value.id in lvars and s.attr == "type" for s in sides)
                 by_type = has_param and has_type
             ctx.check("list-order", "get_item_type selects by type", by_type, git, r,
                       "MapList.get_item_type returns an entry that is not selected by comparing its type with the argument (position in the map list decides)", node=r,
@@ -965,16 +1030,7 @@ def thorough(ctx):
         return None
 
     def constant_rank():
-        node = fn(tm, "TypeMapItem.determine_load_order")
-        for n in ast.walk(node):
-            if isinstance(n, ast.Assign) and isinstance(n.targets[0], ast.Subscript) and isinstance(n.value, ast.Call):
-                old = n.value
-                n.value = ast.Constant(0)
-
-                def undo():
-                    n.value = old
-                return undo
-        return None
+        return _constant_rank(tm)
 
     def reverse_sort():
         node = fn(m, "MapList.__init__")
